@@ -46,6 +46,8 @@ def doc_lines(ev, i):
 def name_of(ev, i):
     if "name" in ev:
         return ev["name"]
+    if "nameprefix" in ev:
+        return ev["nameprefix"] + str(i)
     k = ev["k"]
     return ident({"function": "f", "macro": "m", "cpp_class": "c", "cpp_attr": "a", "cpp_member": "mem",
                   "cpp_constructor": "mem", "ct_add_test": "t", "ct_add_section": "s", "add_test": "ct",
